@@ -204,7 +204,32 @@ fn ssh_text(allow_sp: bool, min: usize) -> impl Strategy<Value = Hex> {
     })
 }
 
+/// identification strings at the RFC 4253 size limit: 240..255 bytes including CR LF, software
+/// made of printable bytes with lone CRs sprinkled in
+pub fn ssh_banner_long() -> impl Strategy<Value = SshBanner> {
+    (any::<bool>(), 240usize..=255, vec(any::<u16>(), 0..70), any::<u8>()).prop_map(|(v199, total, crs, c)| {
+        let head = if v199 { 9 } else { 8 }; // "SSH-1.99-" / "SSH-2.0-"
+        let n = total - head - 2;
+        let mut sw = vec![b'a' + c % 26; n];
+        for p in crs {
+            let k = pick(p, n);
+            // a lone CR (never followed by LF, never last)
+            if k + 1 < n && sw[k + 1] != b'\n' {
+                sw[k] = b'\r';
+            }
+        }
+        if sw[n - 1] == b'\r' {
+            sw[n - 1] = b'x';
+        }
+        SshBanner { v199, vtail: String::new(), software: Hex(sw), comment: None, tail: Hex(vec![]) }
+    })
+}
+
 pub fn ssh_banner() -> impl Strategy<Value = SshBanner> {
+    prop_oneof![12 => ssh_banner_plain(), 1 => ssh_banner_long()]
+}
+
+fn ssh_banner_plain() -> impl Strategy<Value = SshBanner> {
     (any::<bool>(), "[0-9.]{0,4}", ssh_text(false, 1), prop::option::of(ssh_text(true, 0)), prop_oneof![2 => Just(Hex(vec![])), 1 => vec(any::<u8>(), 0..30).prop_map(Hex)])
         .prop_map(|(v199, vtail, software, comment, tail)| SshBanner { v199, vtail, software, comment, tail })
 }
@@ -505,6 +530,7 @@ fn dns_label() -> impl Strategy<Value = Hex> {
         2 => "[a-z0-9]{21,63}".prop_map(|s| Hex(s.into_bytes())),
         5 => vec(1u8..=255, 1..20).prop_map(Hex),
         1 => vec(prop::sample::select(vec![0u8, b'a', b'b', 0xc0]), 1..8).prop_map(Hex),
+        2 => utf8_text(8, 63).prop_map(Hex),
     ]
 }
 
